@@ -11,6 +11,7 @@ def run(tier):
     n, nbig = (200, 360) if tier == "quick" else (3000, 6000)
     cases = [engine.make_case(i, chk.seed, engine.LOGICS_KERNEL, engine.OPTION_VECTORS) for i in range(n)]
     cases += [engine.make_big_case(i, chk.seed) for i in range(nbig)]
+    cases += [engine.make_steered_case(i, chk.seed) for i in range(120 if tier == "quick" else 3000)]
     results = engine.run_cases(cases, certify=False, timeout=10 if tier == "quick" else 30)
     learnt = timeouts = 0
     per = {}
